@@ -55,6 +55,7 @@ type ProbeAppender struct {
 
 	mu     sync.Mutex
 	events []int64
+	files  []string
 }
 
 var (
@@ -133,6 +134,7 @@ func (p *ProbeAppender) Append(e *log.Event) {
 	}
 	p.mu.Lock()
 	p.events = append(p.events, id)
+	p.files = append(p.files, e.File)
 	p.mu.Unlock()
 }
 func (p *ProbeAppender) Write(b []byte) {}
